@@ -732,6 +732,13 @@ func (c *codecFn) encodeElems(reg *Registry, m *Model) (elems []EncElem, problem
 		}
 		if !unconditional(call.Block()) {
 			e.MayOmit = true
+			// a guarded element must still be emitted whenever its own field is populated: every edge that leads
+			// around the emission must be the "field is empty" edge of a test of that very field
+			if f, ok := c.recvFieldOf(src); ok {
+				if why := skipsPopulated(call, f); why != "" {
+					problems = append(problems, fmt.Sprintf("%s: element %s (field %s) %s", fnKey(c.fn), e.String(), fname(f), why))
+				}
+			}
 		}
 		if e.SrcType != nil && (id.name == "Any" || id.name == "TagAny") {
 			switch e.SrcType.Underlying().(type) {
@@ -773,4 +780,103 @@ func planElems(m *Model, n *types.Named) []EncElem {
 		out = append(out, e)
 	}
 	return out
+}
+
+
+// skipsPopulated: the emission `call` of receiver field f sits under a guard; returns a reason when some way around the
+// emission does not imply that f is empty (zero, nil, "", length 0).
+func skipsPopulated(call *ssa.Call, f *types.Var) string {
+	fn := call.Parent()
+	B := call.Block()
+	reachB := map[*ssa.BasicBlock]bool{}
+	// blocks from which B is reachable
+	for _, x := range fn.Blocks {
+		if x == B || reachableFrom(x)[B] {
+			reachB[x] = true
+		}
+	}
+	isFieldOf := func(v ssa.Value) bool {
+		// a load of (a part of) receiver field f
+		for d := 0; d < 4 && v != nil; d++ {
+			switch x := v.(type) {
+			case *ssa.UnOp:
+				v = x.X
+			case *ssa.FieldAddr:
+				if derefStruct(x.X.Type()) != nil && derefStruct(x.X.Type()).Field(x.Field) == f {
+					return true
+				}
+				v = x.X
+			case *ssa.Field:
+				if st, ok := x.X.Type().Underlying().(*types.Struct); ok && st.Field(x.Field) == f {
+					return true
+				}
+				v = x.X
+			case *ssa.Convert:
+				v = x.X
+			case *ssa.ChangeType:
+				v = x.X
+			default:
+				return false
+			}
+		}
+		return false
+	}
+	// does (cond == outcome) imply that f is empty?
+	impliesEmpty := func(cond ssa.Value, outcome bool) bool {
+		bo, ok := cond.(*ssa.BinOp)
+		if !ok {
+			return false
+		}
+		x, y := bo.X, bo.Y
+		if lx, isLen := lenOperand(x); isLen {
+			// len(f) > 0 false, len(f) != 0 false, len(f) == 0 true
+			if k, ok := constIntVal(y); ok && k == 0 && isFieldOf(lx) {
+				return (bo.Op == token.GTR && !outcome) || (bo.Op == token.NEQ && !outcome) || (bo.Op == token.EQL && outcome)
+			}
+			return false
+		}
+		zero := false
+		if c, ok := y.(*ssa.Const); ok {
+			zero = c.IsNil() || c.Value == nil || c.Value.String() == "0" || c.Value.ExactString() == `""` || c.Value.String() == "false"
+		}
+		if !zero || !isFieldOf(x) {
+			return false
+		}
+		return (bo.Op == token.NEQ && !outcome) || (bo.Op == token.EQL && outcome) || (bo.Op == token.GTR && !outcome)
+	}
+	for _, x := range fn.Blocks {
+		if !reachB[x] || x == B || len(x.Succs) != 2 {
+			continue
+		}
+		iff, ok := x.Instrs[len(x.Instrs)-1].(*ssa.If)
+		if !ok {
+			continue
+		}
+		for i, sc := range x.Succs {
+			if reachB[sc] {
+				continue
+			}
+			// (x -> sc) leads around the emission; the other successor must lead to it
+			if !reachB[x.Succs[1-i]] {
+				continue
+			}
+			// loops: an emission inside a loop body is skipped by the loop exit edge
+			if x.Dominates(B) && sc.Dominates(B) {
+				continue
+			}
+			if _, isRange := iff.Cond.(*ssa.Extract); isRange {
+				continue // range iteration exhausted
+			}
+			if bo, isBo := iff.Cond.(*ssa.BinOp); isBo {
+				if _, isPhi := bo.X.(*ssa.Phi); isPhi {
+					continue // loop counter test
+				}
+			}
+			// a returning error path is not a way around the emission for a successful encoding
+			if !impliesEmpty(iff.Cond, i == 0) {
+				return "can be skipped although the field is populated (the guard is not implied by the field being non-empty): the value is silently left out of the encoding"
+			}
+		}
+	}
+	return ""
 }
